@@ -3,6 +3,8 @@
 set -u
 P=$1; TIER=$2; shift 2
 cd /verif
+# evidence and replays of runs WITH a seeded change go to a scratch directory, never to /verif/evidence
+export VERIF_OUT_DIR=/tmp/run_mutant_out; mkdir -p $VERIF_OUT_DIR/evidence
 if [ -n "$(git -C /repo status --porcelain)" ]; then echo "/repo not clean"; exit 2; fi
 git -C /repo apply "$P" || { echo "patch does not apply"; exit 2; }
 for ID in "$@"; do
